@@ -48,6 +48,7 @@ where
                 max_latency_ns: scn2.sim.max_latency_us * 1000,
             };
         });
+        rand::EXTREME_PER_MILLE.store(scn2.sim.jitter_extreme_pm, std::sync::atomic::Ordering::Relaxed);
         let mut ctx = store::Ctx::new(&scn2.check, &root2);
         f(&mut ctx, &scn2);
         ctx.finish()
@@ -156,6 +157,9 @@ pub fn run_scenario(scn: &Scenario) -> RunOut {
             "C01" | "C02" | "C05" | "C12" | "C13" | "C14" | "C19" => run_sim(scn, |ctx, scn| store::run_seq(ctx, store_of(scn))),
             "C03" => run_sim(scn, |ctx, scn| store::run_crash(ctx, store_of(scn), false)),
             "C09" => run_sim(scn, |ctx, scn| store::run_crash(ctx, store_of(scn), true)),
+            "C04" => run_sim(scn, |ctx, scn| store::run_conc(ctx, store_of(scn))),
+            "C17" => run_sim(scn, |ctx, scn| crate::bg::run_close(ctx, store_of(scn))),
+            "C18" => run_sim(scn, |ctx, scn| crate::bg::run_policy(ctx, store_of(scn))),
             "C20" => {
                 if s.fault.is_some() {
                     run_sim(scn, |ctx, scn| store::run_fault_one(ctx, store_of(scn)))
